@@ -112,21 +112,37 @@ class Ctx:
     def fresh_lincomb(self, value, name="r"):
         """A LinComb whose wire expression is an opaque result wire with honest value `value`."""
         lc, var = self.g.result_wire(value, name)
-        return self.LinComb(value, lc)
+        return self.mk_lincomb(value, lc)
+
+    def mk_lincomb(self, value, lc):
+        """Allocate a LinComb without running any code of /repo."""
+        o = object.__new__(self.LinComb)
+        o.value = value
+        o.lc = lc
+        return o
+
+    def mk_bool(self, lincomb):
+        o = object.__new__(self.LinCombBool)
+        o.lc = lincomb
+        return o
+
+    def mk_fxp(self, lincomb):
+        o = object.__new__(self.LinCombFxp)
+        o.lc = lincomb
+        return o
 
     def fresh_bool_lc(self, value, name="b"):
-        r = self.fresh_lincomb(value, name)
-        return self.LinCombBool(r, False)
+        return self.mk_bool(self.fresh_lincomb(value, name))
 
     def operand(self, name, kind="priv", tie=True):
         """A secret operand LinComb with a fresh symbolic value."""
         x = SymInt(z3.Int("s_" + name))
-        return self.LinComb(x, self.g.operand(x, name, tie=tie))
+        return self.mk_lincomb(x, self.g.operand(x, name, tie=tie))
 
     def operand_bool(self, name, tie=True):
         x = SymInt(z3.Int("s_" + name))
         cur().assume(z3.Or(x.t == 0, x.t == 1))
-        return self.LinCombBool(self.LinComb(x, self.g.operand(x, name, tie=tie)), False)
+        return self.mk_bool(self.mk_lincomb(x, self.g.operand(x, name, tie=tie)))
 
     def public_int(self, name):
         return SymInt(z3.Int("k_" + name))
@@ -168,6 +184,7 @@ class Contract:
     modules = ("pysnark.runtime", "pysnark.boolean")
     result_kind = None      # None | 'lincomb' | 'bool' | custom via result()
     covers_normal = True    # some path must return normally in every config
+    witness_args = ()       # positions of arguments that are witness values (do not shape the circuit)
     inline = False
 
     # ---- to be overridden ---------------------------------------------------
@@ -241,8 +258,11 @@ class Contract:
 
     def _opnd_sig(self, c, args, kwargs):
         out = []
-        for a in list(args) + [kwargs[k] for k in sorted(kwargs)]:
-            out.append(_struct_sig(c, a))
+        for i, a in enumerate(list(args) + [kwargs[k] for k in sorted(kwargs)]):
+            if i in self.witness_args:
+                out.append(("witness",))        # a value handed to the backend, not part of the circuit
+            else:
+                out.append(_struct_sig(c, a))
         return tuple(out)
 
 
